@@ -373,6 +373,18 @@ func (x *Exec) callAppend(s *State, call *ast.CallExpr) *Term {
 		x.heapSet(s, memName(es), Store(mem, blk, na))
 		if es == SReal && x.eng.usedWf && src.S == SliceSort {
 			x.wfConcatRule(s, old, Field(sv, 1), ln, Select(mem, Field(src, 0)), Field(src, 1), n, na, off)
+			// the source is a suffix (from a record boundary to the end) of a larger command sequence
+			root, lo := src, IntLit(0)
+			for k := 0; k < 4; k++ {
+				pi, ok := x.sliceParent[root]
+				if !ok {
+					break
+				}
+				root, lo = pi.parent, Arith("+", lo, pi.lo)
+			}
+			if root != src {
+				x.wfConcatSuffixRule(s, old, Field(sv, 1), ln, Select(mem, Field(root, 0)), Field(root, 1), Field(root, 2), lo, n, na, off)
+			}
 		}
 		return Mk(SliceSort, blk, off, Arith("+", ln, n), Ite(inplace, cp, newCap))
 	}
@@ -670,6 +682,13 @@ func (x *Exec) callFunc(s *State, fn *types.Func, call *ast.CallExpr) []*Term {
 			// module's memory only through its interface/function arguments
 			var names []string
 			if x.callbackWriteNames(call, func(n string) { names = append(names, n) }) {
+				wfBefore := x.patherWf(s, call, sig)
+				defer func() {
+					for _, e := range wfBefore {
+						a, o, n := x.seqOf(s, x.loadField(s, e.ref, e.si, e.fi))
+						s.assume(Implies(And(Not(Eq(e.ref, IntLit(0))), e.was), x.mentionWf(s, a, o, n)))
+					}
+				}()
 				for _, n := range names {
 					if n == "$alloc" || n == "$balloc" {
 						old := x.heapGet(s, n, SInt)
@@ -1198,7 +1217,10 @@ func (x *Exec) callSpecHelper(s *State, fn *types.Func, call *ast.CallExpr) []*T
 		}
 		os := x.oldStates[len(x.oldStates)-1]
 		// evaluate in the old heap with the current env (parameters denote entry values in clauses)
-		tmp := &State{env: s.env, heap: map[string]*Term{}, assumes: s.assumes}
+		if os.epoch == nil {
+			os.epoch = x.freshVar("epoch", SInt)
+		}
+		tmp := &State{env: s.env, heap: map[string]*Term{}, assumes: s.assumes, epoch: os.epoch}
 		// parameters denote their entry values inside old()
 		if ent := x.frames[0].entry; ent != nil && len(x.frames) == 1 || (ent != nil && x.inTopClause()) {
 			ne := make(map[types.Object]*Term, len(s.env))
@@ -1537,6 +1559,62 @@ func (x *Exec) callbackWriteNames(call *ast.CallExpr, add func(string)) bool {
 		}
 	}
 	return true
+}
+
+type patherArg struct {
+	ref *Term
+	si  *structInfo
+	fi  int
+	was *Term // wf(p) before the call
+}
+
+// patherWf: for *canvas.Path arguments passed as an interface whose method set is a subset of the path builders
+// {MoveTo, LineTo, QuadTo, CubeTo, ArcTo, Close}: the external callee can reach the path only through those methods
+// (the field d is unexported), each of which is proved to preserve well-formedness, so wf before implies wf after
+// (induction over the callbacks; listed in the trusted base as "callback induction").
+func (x *Exec) patherWf(s *State, call *ast.CallExpr, sig *types.Signature) []patherArg {
+	var out []patherArg
+	for i, a := range call.Args {
+		if i >= sig.Params().Len() {
+			break
+		}
+		it, ok := sig.Params().At(i).Type().Underlying().(*types.Interface)
+		if !ok {
+			continue
+		}
+		okSet := it.NumMethods() > 0
+		for j := 0; j < it.NumMethods(); j++ {
+			switch it.Method(j).Name() {
+			case "MoveTo", "LineTo", "QuadTo", "CubeTo", "ArcTo", "Close":
+			default:
+				okSet = false
+			}
+		}
+		ptr, isPtr := x.typeOf(a).Underlying().(*types.Pointer)
+		if !okSet || !isPtr {
+			continue
+		}
+		named, _ := ptr.Elem().(*types.Named)
+		if named == nil || named.Obj().Name() != "Path" || named.Obj().Pkg() == nil || named.Obj().Pkg().Name() != "canvas" {
+			continue
+		}
+		st := x.eng.tm.structOf(named)
+		fidx := -1
+		for k, f := range st.fields {
+			if f.Name() == "d" {
+				fidx = k
+			}
+		}
+		if fidx < 0 {
+			continue
+		}
+		ref := x.eval(s, a)
+		aa, oo, nn := x.seqOf(s, x.loadField(s, ref, st, fidx))
+		was := x.mentionWf(s, aa, oo, nn)
+		libUsed["callback induction"] = "an external callee that receives a *Path only as an interface of builder methods (MoveTo/LineTo/QuadTo/CubeTo/ArcTo/Close, each proved to preserve wf) leaves it well-formed"
+		out = append(out, patherArg{ref: ref, si: st, fi: fidx, was: was})
+	}
+	return out
 }
 
 // callStatic: call of a known function with an already evaluated receiver
